@@ -118,10 +118,12 @@ impl DhtHandler {
                 // `unwrap` is OK because we checked the timer is non-empty, so it should never
                 // return `None`.
                 let token = token.unwrap();
+                vtrace!("{} H timer {}", self.socket.local_addr(), crate::verif::task_text(&token));
                 self.handle_timeout(token).await
             }
             command = self.command_rx.recv() => {
                 if let Some(command) = command {
+                    vtrace!("{} H cmd {}", self.socket.local_addr(), crate::verif::command_text(&command));
                     self.handle_command(command).await
                 } else {
                     self.shutdown()
@@ -129,13 +131,17 @@ impl DhtHandler {
             }
             result = self.bootstrap.state_rx.changed() => {
                 assert!(result.is_ok());
+                vtrace!("{} H bstate {}", self.socket.local_addr(), self.is_bootstrapped());
                 if self.is_bootstrapped() {
                     self.handle_bootstrap_success().await;
                 }
             }
             message = self.socket.recv() => {
                 match message {
-                    Ok((message, addr)) => if let Err(error) = self.handle_incoming(message, addr).await {
+                    Ok((message, addr)) => if let Err(error) = {
+                        vtrace!("{} H msg {addr}", self.socket.local_addr());
+                        self.handle_incoming(message, addr).await
+                    } {
                         tracing::debug!("{}: Failed to handle incoming message: {} from:{addr:?}", self.ip_version(), error);
                     }
                     Err(error) => tracing::warn!("{}: Failed to receive incoming message: {}", self.ip_version(), error),
